@@ -20,6 +20,8 @@ mod gen_dirty;
 mod gen_edge;
 #[path = "gen_fault.rs"]
 mod gen_fault;
+#[path = "gen_faultgo.rs"]
+mod gen_faultgo;
 #[path = "gen_feat.rs"]
 mod gen_feat;
 #[path = "gen_file.rs"]
@@ -80,6 +82,7 @@ pub fn run(scenario: &str, tier: Tier, seed: u64, exec: bool, extra: &[String], 
         "time" => gen_time::run(tier, seed, &mut rng, n_override, &mut sink),
         "flush" => gen_flush::run(tier, seed, &mut rng, n_override, &mut sink),
         "fault" => gen_fault::run(tier, seed, &mut rng, n_override, &mut sink),
+        "faultgo" => gen_faultgo::run(tier, seed, &mut rng, n_override, &mut sink),
         "feat" => gen_feat::run(tier, seed, &mut rng, n_override, &mut sink),
         "foreign" => gen_foreign::run(tier, seed, &mut rng, n_override, &mut sink),
         "big" => gen_big::run(tier, seed, &mut rng, n_override, &mut sink),
@@ -533,6 +536,7 @@ pub struct Ctx {
     pub auto: Option<Op>,
     /// seq of the last operation emitted through `step` (not counting the automatic observation)
     pub last_seq: u64,
+    pending_fault: Option<u64>,
     /// trace of the private session (only kept when HARNESS_SELFCHECK is set)
     pub private_trace: Option<Vec<u8>>,
 }
@@ -566,6 +570,7 @@ impl Ctx {
             n_err: 0,
             auto: None,
             last_seq: 0,
+            pending_fault: None,
             private_trace: if std::env::var_os("HARNESS_SELFCHECK").is_some() { Some(Vec::new()) } else { None },
         }
     }
@@ -591,6 +596,16 @@ impl Ctx {
         r
     }
 
+    /// Like `step`, but the operation runs with a one-shot fault at its k-th device call (a `fault k` line precedes it).
+    pub fn step_fault(&mut self, k: u64, op: Op) -> Out {
+        self.h.fault(k);
+        self.pending_fault = Some(k);
+        let r = self.step_inner(op);
+        self.pending_fault = None;
+        self.last_seq = self.h.n_ops() as u64;
+        r
+    }
+
     fn step_inner(&mut self, op: Op) -> Out {
         let skip_online = matches!(op, Op::CrashProbe(..));
         let seq = self.h.op(op.clone());
@@ -601,8 +616,8 @@ impl Ctx {
             return Out::Ok(String::new());
         }
         let r = match self.private_trace.as_mut() {
-            Some(buf) => self.s.step(seq, &op, None, Some(buf)),
-            None => self.s.step(seq, &op, None, None),
+            Some(buf) => self.s.step(seq, &op, self.pending_fault, Some(buf)),
+            None => self.s.step(seq, &op, self.pending_fault, None),
         };
         match r {
             Res::Ok(v, _) => {
